@@ -1,6 +1,7 @@
 package keeper
 
 import (
+	"bytes"
 	"fmt"
 	"math"
 	"strings"
@@ -51,10 +52,13 @@ func (k *Keeper) SetUndelegationRecords(ctx sdk.Context, records []types.Undeleg
 		singleRecKey := types.GetUndelegationRecordKey(record.BlockNumber, record.LzTxNonce, record.TxHash, record.OperatorAddr)
 		singleRecordStore.Set(singleRecKey, bz)
 
-		stakerKey := types.GetStakerUndelegationRecordKey(record.StakerID, record.AssetID, record.LzTxNonce)
+		// the index keys are made unique per record by appending the record key: several
+		// records may share (staker, asset, nonce) or (completion height, nonce), e.g. one
+		// message undelegating from several operators, or two accounts with equal sequences.
+		stakerKey := uniqueIndexKey(types.GetStakerUndelegationRecordKey(record.StakerID, record.AssetID, record.LzTxNonce), singleRecKey)
 		stakerUndelegationStore.Set(stakerKey, singleRecKey)
 
-		pendingUndelegationKey := types.GetPendingUndelegationRecordKey(record.CompleteBlockNumber, record.LzTxNonce)
+		pendingUndelegationKey := uniqueIndexKey(types.GetPendingUndelegationRecordKey(record.CompleteBlockNumber, record.LzTxNonce), singleRecKey)
 		pendingUndelegationStore.Set(pendingUndelegationKey, singleRecKey)
 	}
 	return nil
@@ -71,11 +75,27 @@ func (k *Keeper) DeleteUndelegationRecord(ctx sdk.Context, record *types.Undeleg
 	singleRecordStore.Delete(singleRecKey)
 
 	stakerKey := types.GetStakerUndelegationRecordKey(record.StakerID, record.AssetID, record.LzTxNonce)
-	stakerUndelegationStore.Delete(stakerKey)
+	stakerUndelegationStore.Delete(uniqueIndexKey(stakerKey, singleRecKey))
+	// also remove an index entry written in the legacy (non-unique) format, if it is ours
+	if bytes.Equal(stakerUndelegationStore.Get(stakerKey), singleRecKey) {
+		stakerUndelegationStore.Delete(stakerKey)
+	}
 
 	pendingUndelegationKey := types.GetPendingUndelegationRecordKey(record.CompleteBlockNumber, record.LzTxNonce)
-	pendingUndelegationStore.Delete(pendingUndelegationKey)
+	pendingUndelegationStore.Delete(uniqueIndexKey(pendingUndelegationKey, singleRecKey))
+	if bytes.Equal(pendingUndelegationStore.Get(pendingUndelegationKey), singleRecKey) {
+		pendingUndelegationStore.Delete(pendingUndelegationKey)
+	}
 	return nil
+}
+
+// uniqueIndexKey appends the record key to a secondary index key, so that two records can
+// never share (and overwrite) an index entry. Readers only iterate these indexes by prefix.
+func uniqueIndexKey(indexKey, singleRecKey []byte) []byte {
+	res := make([]byte, 0, len(indexKey)+1+len(singleRecKey))
+	res = append(res, indexKey...)
+	res = append(res, '/')
+	return append(res, singleRecKey...)
 }
 
 // GetUndelegationRecords returns the undelegation records for the provided record keys.
